@@ -327,7 +327,11 @@ def k_write(sim, sock, data, what='write'):
             k = end - off
             if seg and k > 1 and sim.frng.random() < seg:
                 r = sim.frng.random()
-                if r < 0.4:
+                edge = off < 24 or (total - off) < 24
+                if total > 4096 and not edge:
+                    # large payloads: keep the number of segments bounded (cuts stay dense near message boundaries)
+                    k = sim.frng.randint(min(k, max(1, total // 12)), k)
+                elif r < 0.4:
                     k = 1
                 elif r < 0.7:
                     k = sim.frng.randint(1, min(k, 8))
